@@ -718,7 +718,11 @@ class SymArr:
 
     def __eq__(self, o):
         r = self._ew(o, lambda a, b: _numeric(a) == _numeric(b), "b")
-        return False if r is NotImplemented else r
+        if r is NotImplemented:
+            return False
+        if self.ndim == 1 and self.kind == "i" and not isinstance(o, (SymArr, list, tuple)) and kind_of(o) == "int":
+            r._count_of = (self, o)  # .sum() / count_nonzero of this mask is the number of entries equal to o (as for isin)
+        return r
 
     def __ne__(self, o):
         r = self._ew(o, lambda a, b: _numeric(a) != _numeric(b), "b")
@@ -857,6 +861,21 @@ class SymArr:
         from .prelude_np import NP
 
         return NP.cumsum(self)
+
+    def searchsorted(self, v, side="left", sorter=None):
+        from .prelude_np import NP
+
+        return NP.searchsorted(self, v, side=side, sorter=sorter)
+
+    def take(self, indices, axis=None):
+        from .prelude_np import NP
+
+        return NP.take(self, indices, axis=axis)
+
+    def repeat(self, repeats, axis=None):
+        from .prelude_np import NP
+
+        return NP.repeat(self, repeats, axis=axis)
 
     def any(self):
         from .prelude_np import NP
